@@ -3,6 +3,10 @@ module verif/harness
 go 1.22.0
 
 require (
+	example.com/wb1 v0.0.0
+	example.com/wb2 v0.0.0
+	example.com/wb3 v0.0.0
+	example.com/wb4 v0.0.0
 	github.com/quasilyte/go-ruleguard v0.0.0
 	github.com/quasilyte/go-ruleguard/dsl v0.3.22
 	github.com/quasilyte/gogrep v0.5.0
@@ -41,3 +45,12 @@ replace example.com/c20/lib => ./fake/c20lib
 
 // rule bundle whose groups have Import() sets of their own (C20)
 replace example.com/c20bundle => ./fake/c20bundle
+
+// rule bundles imported by the C01 load histories (wb1: last file has only comment rules, wb4: no syntax rules at all)
+replace example.com/wb1 => ./fake/wb1
+
+replace example.com/wb2 => ./fake/wb2
+
+replace example.com/wb3 => ./fake/wb3
+
+replace example.com/wb4 => ./fake/wb4
